@@ -12,6 +12,8 @@ def explore(run, lean):
                          "plus the decorator-detection probe (known finding)")
     ROUND6_RULE = '; live flags switched on after start_at or after k events'
     run.extra["rule"] += ROUND6_RULE
+    ROUND8_RULE = '; hosts whose handlers find their parent through chart.parent_callback() on queued and active hosts (round 8)'
+    run.extra["rule"] = run.extra.get("rule", "") + ROUND8_RULE
 
 
 def replay(case):
